@@ -10,7 +10,7 @@ PATCH=$(readlink -f "$1"); ID=$2; TIER=${3:-quick}
 T=$(mktemp -d)
 trap 'rm -rf "$T"' EXIT
 mkdir -p "$T/src" "$T/root/evidence" "$T/root/replays"
-cp known_findings.json c03_known_cases.json "$T/root/"
+cp -r known_findings.json c03_known_cases.json known_cases "$T/root/"
 FILES=$(grep '^+++ ' "$PATCH" | sed 's#^+++ [ab]/##; s#\t.*##')
 echo '{"Replace": {' > "$T/ov.json"
 first=1
